@@ -369,7 +369,11 @@ def lock_lines(ind, name, cex):
             ind + "repeat' (refine %s ?_ (fun _ _ => ?_) (fun _ _ => ?_))" % ite,
             ind + "all_goals first | (refine %s (fun res res' h h' => ?_); %s%s) | %s" % (oe, CLOSE, GR, GR)]
 ec_done = set()
+STMT_HEAD = list(out)
 for d in stmt_all + entry_defs:
+    if d.name == "createElems":          # second file (build time)
+        open(os.path.join(LEAN, "MsqProofs/Lemmas/ParseCaseStmt.lean"), "w", encoding="utf-8").write("\n".join(out + ["end PM"]) + "\n")
+        out = ["import MsqProofs.Lemmas.ParseCaseStmt", HEADER % "the statement level, part 2: CREATE TABLE … `parse_statements`"] + OPTS
     out += each_closed_lemmas(d.body, ec_done)
     if d.alias is not None:
         tgt = d.alias.split()[0]
@@ -423,5 +427,5 @@ for d in stmt_all + entry_defs:
     pat1 = " ".join([d.name] + a1); pat2 = " ".join([d.name] + a2)
     out += ["grind_pattern %s_ce => %s, %s" % (d.name, pat1, pat2), ""]
 out += ["end PM"]
-open(os.path.join(LEAN, "MsqProofs/Lemmas/ParseCaseStmt.lean"), "w", encoding="utf-8").write("\n".join(out) + "\n")
+open(os.path.join(LEAN, "MsqProofs/Lemmas/ParseCaseStmt2.lean"), "w", encoding="utf-8").write("\n".join(out) + "\n")
 print("statement level:", len(stmt_all) + len(entry_defs))
